@@ -8,6 +8,7 @@ import (
 	"runtime"
 	"strings"
 	"sync"
+	"sync/atomic"
 	"testing"
 	"testing/synctest"
 	"time"
@@ -597,5 +598,123 @@ func TestC05Regress(t *testing.T) {
 	evid.For("C05").Case(true, "regress|D17", "regression-replay")
 	if bad != "" {
 		failCase(t, "C05", map[string]any{"regress": "D17-reader-racing-close-discard"}, "%s", bad)
+	}
+}
+
+// TestC05StaleHandleRace: real parallelism, real clock (no bubble: the window is a few
+// nanoseconds between two atomic stores and has no blocking point in it). Goroutine A streams
+// messages and calls Close twice on each writer - the explicit Close and the deferred one -,
+// goroutine B streams messages of its own. A's second Close lands, round after round, at the
+// very moment B opens its next message. Every message the peer receives is exactly one that
+// was written; none is cut short, none is empty, none arrives twice. A free-running search:
+// it can miss, it cannot raise a false alarm (the oracle is the stream validator).
+func TestC05StaleHandleRace(t *testing.T) {
+	rec := evid.For("C05")
+	rounds := evid.Scale(6000, 40000)
+	for _, client := range []bool{false, true} {
+		msg := func() string {
+			e := newEnv(t)
+			defer e.Teardown()
+			lc, err := e.open(connSpec{Client: client})
+			if err != nil {
+				return "handshake: " + err.Error()
+			}
+			p := lc.Peer
+			p.onFrame = func(f ref.Frame) {
+				if f.Opcode == ref.OpClose {
+					p.send(ref.Frame{Fin: true, Opcode: ref.OpClose, Payload: f.Payload})
+				}
+			}
+			p.start(e)
+			// (a time limit for the failure case: a message lock that was given away leaves the other goroutine waiting for ever)
+			ctx, cancel := context.WithTimeout(context.Background(), 30*time.Second)
+			defer cancel()
+			var wg sync.WaitGroup
+			var aerr, berr error
+			var phase atomic.Int64 // 3i+1: A is done with message i and keeps closing its handle; 3i+2: B has its writer; 3i+3: B is done
+			staleNil := 0
+			wg.Add(2)
+			go func() {
+				defer wg.Done()
+				for i := int64(0); i < int64(rounds); i++ {
+					w, err := lc.C.Writer(ctx, websocket.MessageBinary)
+					if err != nil {
+						aerr = err
+						phase.Store(1 << 60)
+						return
+					}
+					w.Write([]byte{'A', byte(i), byte(i >> 8), 1})
+					if err := w.Close(); err != nil {
+						aerr = err
+						phase.Store(1 << 60)
+						return
+					}
+					phase.Store(3*i + 1)
+					for phase.Load() == 3*i+1 && ctx.Err() == nil { // the deferred Close, again and again, while B opens its message
+						if w.Close() == nil {
+							staleNil++
+						}
+					}
+					for p := phase.Load(); p != 3*i+3 && p < 1<<60 && ctx.Err() == nil; p = phase.Load() {
+					}
+				}
+			}()
+			go func() {
+				defer wg.Done()
+				for i := int64(0); i < int64(rounds); i++ {
+					for p := phase.Load(); p != 3*i+1; p = phase.Load() {
+						if p >= 1<<60 || ctx.Err() != nil {
+							return
+						}
+					}
+					w, err := lc.C.Writer(ctx, websocket.MessageBinary)
+					phase.Store(3*i + 2)
+					if err == nil {
+						_, err = w.Write([]byte{'B', byte(i), byte(i >> 8)})
+					}
+					if err == nil {
+						_, err = w.Write([]byte{2})
+					}
+					if err == nil {
+						err = w.Close()
+					}
+					if err != nil {
+						berr = fmt.Errorf("round %d: %w", i, err)
+						phase.Store(1 << 60)
+						return
+					}
+					phase.Store(3*i + 3)
+				}
+			}()
+			wg.Wait()
+			if ctx.Err() != nil && aerr == nil && berr == nil {
+				berr = fmt.Errorf("the two writers did not get through their %d rounds within 30 s (phase %d): one of them waits for a message lock that was given away", rounds, phase.Load())
+			}
+			lc.C.Close(websocket.StatusNormalClosure, "")
+			p.waitEOF(10 * time.Second)
+			if staleNil > 0 {
+				return fmt.Sprintf("%d of %d second Close calls on a finished writer returned nil", staleNil, rounds)
+			}
+			if aerr != nil || berr != nil {
+				return fmt.Sprintf("a writer failed: A: %v, B: %v (a Close on A's finished handle acted on B's open message?)", aerr, berr)
+			}
+			rep, verr := ref.ValidateStream(lc.End.InRecording(), ref.StreamOpts{FromClient: client}, false)
+			if verr != nil {
+				return "emitted stream not well-formed: " + verr.Error()
+			}
+			if len(rep.Messages) != 2*rounds {
+				return fmt.Sprintf("%d messages on the wire, %d written", len(rep.Messages), 2*rounds)
+			}
+			for i, m := range rep.Messages {
+				if len(m.Payload) != 4 || (m.Payload[0] != 'A' && m.Payload[0] != 'B') || m.Payload[3] != m.Payload[0]-'A'+1 {
+					return fmt.Sprintf("message %d on the wire is %q: not one of the messages written (cut short or merged)", i, m.Payload)
+				}
+			}
+			return ""
+		}()
+		rec.Case(true, fmt.Sprintf("stalerace|client=%v|%d", client, rounds), "stale-writer-handle-closed-while-another-goroutine-opens-the-next-message")
+		if msg != "" {
+			failCase(t, "C05", map[string]any{"client": client, "rounds": rounds}, "%s", msg)
+		}
 	}
 }
